@@ -444,6 +444,9 @@ theorem C09_utf8_when_valid_agrees_iff_latin1_text (b : List UInt8) :
 
 /-! ### non-vacuity / concrete instances -/
 
+-- the hypothesis of `C09_json_text_latin1_unique` is satisfiable (by latin-1 itself), that of `C09_latin1_encode_inj` too
+example : ∃ ser : List UInt8 → List Char, ∀ b, encodeLatin1 (ser b) = some b := ⟨decodeLatin1, C09_json_text_bytes_roundtrip⟩
+example : encodeLatin1 ['Z', Char.ofNat 0xFC] = some [0x5A, 0xFC] := by decide
 -- every kind of character: quote, backslash, NUL, TAB, LF, DEL, 0xE9, 0xFF, blank padding:
 --   "\"\\\u0000\t\n\u007f\u00e9\u00ff "
 example : jsonTextOfBytes [0x22, 0x5C, 0x00, 0x09, 0x0A, 0x7F, 0xE9, 0xFF, 0x20] =
